@@ -3,6 +3,7 @@ package checks
 // C05 — transactions are atomic and isolated: rollback restores, nothing leaks early.
 
 import (
+	"os"
 	"fmt"
 	"sort"
 	"strings"
@@ -31,6 +32,9 @@ type C05Step struct {
 	// succeed; either way everything the property promises about the transaction still holds.
 	Maint   string `json:"maint,omitempty"`
 	MaintAt int    `json:"maint_at,omitempty"`
+	// MaintFar: the vacuum uses the year-2100 cutoff (everything purgeable is purged, every
+	// superseded version deleted) instead of a cutoff older than every write
+	MaintFar bool `json:"maint_far,omitempty"`
 	// createtxn: BEGIN; CREATE VIRTUAL TABLE (own prefix); NRows single-row INSERTs (with the
 	// maintenance call after MaintAt of them); COMMIT or ROLLBACK. SQLite does not call the
 	// module's begin callback for a table created inside the running transaction.
@@ -93,6 +97,7 @@ func genC05Case(t *rapid.T) C05Case {
 			if rapid.IntRange(0, 3).Draw(t, "maint") == 0 {
 				st.Maint = rapid.SampledFrom([]string{"refresh", "vacuum"}).Draw(t, "maintkind")
 				st.MaintAt = rapid.IntRange(0, k).Draw(t, "maintat")
+				st.MaintFar = rapid.Bool().Draw(t, "maintfar")
 			}
 			for j := 0; j < k; j++ {
 				var s Stmt
@@ -183,6 +188,16 @@ func runC05(c C05Case, o *Obs) error {
 	implicitN := 0
 	keys := intKeys(c.NKeys)
 	dirtyHandle := false
+	everSeen := map[string]bool{} // version names ever stored before the transaction under test
+	seenUpTo := 0
+	noteSeen := func() {
+		for _, q := range store.LogSince(seenUpTo) {
+			if q.Op == "PUT" && strings.Contains(q.Key, "/root/") {
+				everSeen[q.Key[strings.LastIndex(q.Key, "/")+1:]] = true
+			}
+		}
+		seenUpTo = store.LogLen()
+	}
 
 	if c.Prefill > 0 {
 		s := Stmt{Kind: "ins", Cols: []string{"a"}, T: 1}
@@ -245,6 +260,10 @@ func runC05(c C05Case, o *Obs) error {
 		q, args := s.SQL(tn, "k")
 		e := conn.Exec(q, args...)
 		cls := errClass(e)
+		if os.Getenv("VERIF_TRACE") != "" {
+			es, _ := goDump(tn)
+			fmt.Fprintf(os.Stderr, "  %s: %s -> %v\n%s", where, s, e, goDumpString(es, false))
+		}
 		if cls == "error" {
 			return false, fmt.Errorf("%s: %s fails: %v", where, s, e)
 		}
@@ -410,6 +429,7 @@ func runC05(c C05Case, o *Obs) error {
 				return err
 			}
 			preVersions := versionObjects(store, prefix)
+			noteSeen()
 			height := tableHeight(tn)
 			var tm int64
 			if st.Implicit {
@@ -439,7 +459,11 @@ func runC05(c C05Case, o *Obs) error {
 				if st.Maint == "refresh" {
 					e = conn.Refresh(tn)
 				} else {
-					e = conn.Vacuum(tn, baseTime-1000)
+					cut := baseTime - 1000
+					if st.MaintFar {
+						cut = farFuture
+					}
+					e = conn.Vacuum(tn, cut)
 				}
 				if e != nil {
 					o.Class("txn-" + st.Maint + "-inside-refused")
@@ -449,7 +473,16 @@ func runC05(c C05Case, o *Obs) error {
 					// current versions; a vacuum retires what an earlier commit could not) is not the
 					// transaction's doing: the comparisons below start from here. (Had the call
 					// published or dropped pending writes, the row checks above and below report it.)
+					if st.Maint == "vacuum" && st.MaintFar {
+						// the purge forgets every delete marker (also those stamped with a
+						// transaction's own "now"): a later INSERT with an older write time counts
+						view.Vacuum(1 << 41)
+						pre.Vacuum(1 << 41)
+						committed.Vacuum(1 << 41)
+						o.Class("txn-far-vacuum-inside-ran")
+					}
 					preVersions = versionObjects(store, prefix)
+					noteSeen()
 					logFrom = store.LogLen()
 					if st.Maint == "vacuum" && c.EPN < 4096 && !c.NoSteer && !c.NoSteerK4 {
 						// K4 steer: a vacuum leaves the handle on a clone of its tree, which shares
@@ -571,8 +604,16 @@ func runC05(c C05Case, o *Obs) error {
 					return err
 				}
 				nv := versionObjects(store, prefix)
-				added := len(nv) - len(preVersions)
-				if added < 0 || added > 1 {
+				// (a version the handle was opened on, deleted by a vacuum because it was empty, is
+				// filed under root/merged/ again when the handle's next commit retires it: an old
+				// name coming back is not a new version)
+				added := 0
+				for _, n := range nv {
+					if !everSeen[n] {
+						added++
+					}
+				}
+				if added > 1 {
 					return fmt.Errorf("%s: one COMMIT created %d version objects", where, added)
 				}
 				if added == 0 && !view.Rows(wideCols).Equal(pre.Rows(wideCols)) {
